@@ -251,17 +251,17 @@ def _wrap(W):
     oput, oremove = Server._verif_orig
     log = W.log
 
-    def put(self, app):
-        rc = oput(self, app)
+    def put(self, app, *a, **kw):
+        rc = oput(self, app, *a, **kw)
         if rc:
             with NoTracing():
                 log.append(('put', self.name, app.name, _caller_branch()))
         return rc
 
-    def remove(self, app_name):
+    def remove(self, app_name, *a, **kw):
         with NoTracing():
             log.append(('remove', self.name, app_name, _caller_branch()))
-        return oremove(self, app_name)
+        return oremove(self, app_name, *a, **kw)
 
     Server.put = put
     Server.remove = remove
@@ -272,11 +272,11 @@ def _wrap(W):
     ofp = Cell._verif_orig_fp
     W.queues = []
 
-    def _find_placements(self, queue, servers):
+    def _find_placements(self, queue, servers, *a, **kw):
         W.queues.append([a.name for a in queue])
         W.queue_pre = getattr(W, 'queue_pre', [])
         W.queue_pre.append({a.name: (a.server, a.final_rank) for a in queue})
-        return ofp(self, queue, servers)
+        return ofp(self, queue, servers, *a, **kw)
 
     Cell._find_placements = _find_placements
 
